@@ -37,6 +37,9 @@ HEA = "tangelo/toolboxes/ansatz_generator/hea.py"
 BOOT = "tangelo/toolboxes/post_processing/bootstrapping.py"
 GROUP = "tangelo/toolboxes/measurements/qubit_terms_grouping.py"
 PEN = "tangelo/toolboxes/ansatz_generator/penalty_terms.py"
+COMBI = "tangelo/toolboxes/qubit_mappings/combinatorial.py"
+HCB = "tangelo/toolboxes/qubit_mappings/hcb.py"
+FCI = "tangelo/algorithms/classical/fci_solver.py"
 ISP = "tangelo/toolboxes/molecular_computation/integral_solver_pyscf.py"
 
 FIRE = [
@@ -148,6 +151,12 @@ FIRE = [
     ("rhf-two-body-not-halved", "C04", [(MOL, "reps.InteractionOperator(core_constant, one_body_coefficients, 1 / 2 * two_body_coefficients)", "reps.InteractionOperator(core_constant, one_body_coefficients, two_body_coefficients)")], "K9.interaction-operator"),
     ("uhf-block-index-swapped", "C04", [(MOL, "                one_body_integrals_new_bb[u, v] += two_body_integrals[1][i, u, v, i]  # this is AlphaBeta", "                one_body_integrals_new_bb[u, v] += two_body_integrals[1][u, i, i, v]  # this is AlphaBeta")], "K10.spin-sorts"),
     # ---- C05 / C03
+    ("combinatorial-stride-alpha", "C03", [(COMBI, "            unique_int = (int_alpha * n_choose_beta) + int_beta", "            unique_int = (int_alpha * n_choose_alpha) + int_beta")], "K9.combinatorial-basis"),
+    ("combinatorial-register-floor", "C03", [(COMBI, "    n = math.ceil(np.log2(n_choose_alpha * n_choose_beta))", "    n = math.floor(np.log2(n_choose_alpha * n_choose_beta))")], "K9.combinatorial-basis"),
+    ("hcb-exchange-from-pair-hopping", "C03", [(HCB, "            r2_coeff = 2*e_tei[i, j, j, i] - e_tei[i, j, i, j]", "            r2_coeff = 2*e_tei[i, j, j, i] - r1_coeff")], "K9.hcb-table"),
+    ("hcb-pair-energy-without-repulsion", "C03", [(HCB, "            coeff = 2*e_sei[i, i] + e_tei[i, i, i, i]", "            coeff = 2*e_sei[i, i]")], "K9.hcb-table"),
+    ("fci-cas-bare-count", "C04", [(FCI, "                                                   (self.n_alpha, self.n_beta),\n                                                   ecore=self.ecore)", "                                                   self.nelec,\n                                                   ecore=self.ecore)")], "K6.electron-sector"),
+    ("fci-alpha-count-floor", "C04", [(FCI, "        self.n_alpha = self.nelec//2 + self.spin//2 + (self.nelec % 2)", "        self.n_alpha = self.nelec//2 + self.spin//2")], "K6.electron-sector"),
     ("mapping-name-case-sensitive", "C03", [(MT, "    if mapping.upper() not in available_mappings:", "    if mapping not in available_mappings:")], "K3.mapping-dispatch"),
     ("vector-mapping-name-case-sensitive", "C05", [(SV, "    if mapping.upper() not in available_mappings:", "    if mapping not in available_mappings:")], "K3"),
     ("odd-order-three-accepted", "C06", [(AU, "    if trotter_order > 1 and trotter_order % 2 != 0:", "    if trotter_order > 3 and trotter_order % 2 != 0:")], "K9.suzuki"),
@@ -227,6 +236,9 @@ SILENT = [
     ("redundant-gates-all-spelling", "C09", [(CIRC, "        for qubit_i in qubits:\n            if not gate_qubits[qubit_i] or gate_qubits[qubit_i][-1][1].inverse() != gate:\n                remove_gate = False\n                break", "        remove_gate = all(gate_qubits[q] and gate_qubits[q][-1][1].inverse() == gate for q in qubits)")]),
     ("qubit-number-memoised", "C03", [(MT, "def get_qubit_number(mapping, n_spinorbitals):", "@functools.lru_cache(maxsize=None)\ndef get_qubit_number(mapping, n_spinorbitals):"), (MT, "from math import ceil\n", "from math import ceil\nimport functools\n")]),
     ("truncation-divisor-spelling", "C14", [(OPS, "        frob_factor = 2**(n_qubits / 2)", "        frob_factor = sqrt(2**n_qubits)")]),
+    ("combinatorial-label-spelling", "C03", [(COMBI, "            unique_int = (int_alpha * n_choose_beta) + int_beta", "            unique_int = int_beta + n_choose_beta * int_alpha")]),
+    ("hcb-coefficient-spelling", "C03", [(HCB, "            r2_coeff = 2*e_tei[i, j, j, i] - e_tei[i, j, i, j]", "            direct, exchange = e_tei[i, j, j, i], e_tei[i, j, i, j]\n            r2_coeff = direct + direct - exchange")]),
+    ("fci-alpha-count-closed-form", "C04", [(FCI, "        self.n_alpha = self.nelec//2 + self.spin//2 + (self.nelec % 2)", "        self.n_alpha = (self.nelec + self.spin)//2")]),
     ("angle-law-spelling", "C06", [(AU, "    angle = 2.*coef if coef >= 0. else 4*np.pi+2*coef", "    angle = 2.*coef + (0. if coef >= 0. else 4*np.pi)")]),
     ("cirq-branches-reordered", "C01", [(TCIRQ, '        elif gate_name in {"SWAP"}:\n            target_circuit.append(GATE_CIRQ[gate_name](qubit_list[gate.target[0]], qubit_list[gate.target[1]]))\n        elif gate_name in {"CSWAP"}:\n            next_gate = GATE_CIRQ[gate_name].controlled(num_controls)\n            target_circuit.append(next_gate(*control_list, qubit_list[gate.target[0]], qubit_list[gate.target[1]]))\n',
                                          '        elif gate_name in {"CSWAP"}:\n            next_gate = GATE_CIRQ[gate_name].controlled(num_controls)\n            target_circuit.append(next_gate(*control_list, qubit_list[gate.target[0]], qubit_list[gate.target[1]]))\n        elif gate_name in {"SWAP"}:\n            target_circuit.append(GATE_CIRQ[gate_name](qubit_list[gate.target[0]], qubit_list[gate.target[1]]))\n')]),
